@@ -172,9 +172,9 @@ PROPS = {
         rule='evaluations = measured dispatch calls, one fresh loop per cell of the grid timeout {0, 5, 40, 200 ms, None} x armed timer {none, earlier, equal, later, expired, +1 h, unrepresentable, '
              'earlier after set_deadline from unrepresentable} x idle population {empty, ping with live handle, ping with all handles gone, channel with all senders gone, empty executor, not-ready level fd, '
              'ready fd with empty interest, fired one-shot, disabled sources holding pending readiness, self-removed source whose slot was reused, sync channel drained exactly at its bound, '
-             'rendezvous channel after a refused try_send, channel after exactly 1024 messages, timer removed after its deadline passed undispatched, timer re-armed into the past and disabled, lifecycle source whose before_sleep takes 60 ms, signals interrupting the wait (EINTR) at 30/55/75 %, both}; '
+             'rendezvous channel after a refused try_send, channel after exactly 1024 messages, queued idle callback, cancelled idle callback, adapter waiting for readability after a wait for writability, timer removed after its deadline passed undispatched, timer re-armed into the past and disabled, lifecycle source whose before_sleep takes 60 ms, signals interrupting the wait (EINTR) at 30/55/75 %, both}; '
              'every cell is non-trivial; distinct = distinct cells',
-        exhaustive_scope='the whole grid (720 cells) once (quick) or five times (thorough)',
+        exhaustive_scope='the whole grid (840 cells) once (quick) or five times (thorough)',
         assumptions=COMMON_ASSUME + ['lower bounds (no spinning) are exact; the upper bound is limit + max(150 ms, 2 x limit) and only three consecutive exceedances of the same cell count, a minority is recorded as inconclusive',
                                      'time spent inside the user\'s own before_sleep hook is the user\'s: a timeout runs from the start of the wait; a timer deadline is absolute, so with a slow hook and a deadline as the limit the ceiling is max(limit, hook) + 0.6 x min(limit, hook)'],
         level_text='grid exploration with wall-clock measurement: elapsed >= 0.9 x min(timeout, time to earliest deadline) - 1 ms, the limiting timer fired in that dispatch, no idle source was invoked, '
